@@ -146,7 +146,7 @@ CLAIMED['C13'] = dict(
          '||I - XA||_F/sqrt(n) of the returned X, converged only below tol, flag consistent; RSP column variant (block size 1, all sketch draws symbolic, exact QR stub, '
          'incl. an injected micro-solver failure): one residual per successful iteration, the last proxy is the proxy of the returned X, the flag is computed from it, '
          'and the projection step satisfies its sketched constraint up to the documented 1e-30 regulariser; Hybrid: hyperpower step = (sum_{i<p} F^i) X and '
-         'I - X+A = F^p, proxy / flag consistency.',
+         'I - X+A = F^p, proxy / flag consistency (n = 1 with all draws symbolic; n = 2 with A symbolic and the sketch draws fixed to non-trivial rationals).',
     ref='3/C13',
     note='That a small proxy (random test sketch) implies a small true residual is probabilistic and outside the claim; so are the SPD/CG micro-solver, block sizes > 1 '
          'and convergence. Floats as reals; shim; z3.')
